@@ -550,6 +550,7 @@ def adjacency(ses, rep, fs):
                 ex = ses.executor("lib", fs, inline=lambda n_, fn: False)
                 ex.max_block_visits = visits
                 ex.max_paths = 3000
+                ex.inline_closure_calls = True          # local lambdas called by name are part of the function
                 try:
                     outs = ex.run(f, lazy_args(ex, f))
                     break
@@ -629,6 +630,34 @@ def adjacency(ses, rep, fs):
                             if r == "sat":
                                 flagged.append((oid, f"{f.name} assembles a token list in which an indent is directly followed by "
                                                      f"{'a white-space token' if b_ == 'space' else 'comments that each carry a leading space'}", "adjacency", {"function": f.name}))
+                # across tokens: a token whose trailing trivia ENDS in an indent is followed, on the same line, by whatever comes next; on the same
+                # path no node may get white space PREPENDED through update_leading_trivia(Append([<space>, ..])) (`[` + newline + indent, then ` [[key]]`)
+                ends_indent, starts_space = [], []
+                for t in hv:
+                    last = t[1].split("::")[-1]
+                    snap = t[4] if len(t) > 4 else t[2]
+                    if last not in ("update_trailing_trivia", "update_leading_trivia", "update_trivia") or len(snap) < 2:
+                        continue
+                    pairs = [("leading", snap[1]), ("trailing", snap[2])] if last == "update_trivia" and len(snap) > 2 else [("leading" if "leading" in last else "trailing", snap[1])]
+                    for side, payload in pairs:
+                        pv = deref_val(ex, o.state, payload)
+                        if not (isinstance(pv, Agg) and pv.variant in ("Append", "Replace") and pv.fields):
+                            continue
+                        lst = deref_val(ex, o.state, pv.fields[0])
+                        seq = contents.get(lst.oid) if isinstance(lst, Lazy) else None
+                        if not seq:
+                            continue
+                        if side == "trailing" and seq[-1] == "indent":
+                            ends_indent.append(t)
+                        if side == "leading" and pv.variant == "Append" and seq[0] in ("space", "list-space-first"):
+                            starts_space.append(t)
+                if ends_indent and starts_space and (f.name, "cross") not in seen_sites:
+                    seen_sites.add((f.name, "cross"))
+                    oid = f"adjacency/{fs}/{f.name}/path{pi}/indent-at-the-end-of-a-token-then-space-prepended"
+                    r, m = ses.obligation(oid, list(o.pc), z3.BoolVal(True), "after a trailing [newline, indent] nothing gets a space prepended on the same path")
+                    if r == "sat":
+                        flagged.append((oid, f"{f.name} ends a token's trailing trivia with an indent and prepends a space to another node on the same path: "
+                                             "a line can start with indent + space", "adjacency", {"function": f.name}))
             if not seen_sites:
                 rep.add(f"adjacency/{fs}/{f.name}/no-white-space-after-indent", "unsat", "no token list of this function puts white space after an indent (all paths)")
     rep.bounds[f"adjacency_functions_{fs}"] = n_fn
@@ -690,6 +719,7 @@ PROGRAMS = [
     "local y = first_operand -- a\n\tand -- b\n\tsecond_operand -- c\n\tor --[[d]] third_operand\n",
     "call(first_argument, -- a\n\t-- b\n\tsecond_argument -- c\n\t, third_argument)\nlocal t = { -- a\n\tk = v, -- b\n\t-- c\n\t[1] = 2 -- d\n\t, 3 }\n",
     "if a -- c1\n\t-- c2\n\tand -- c3\n\tb then -- c4\n\treturn -- c5\nend\nlocal v = a.b -- c6\n\t.c -- c7\n\t:d() -- c8\n",
+    "local v = cache[ -- comment\n\t[[key]]\n]\ncache[ [[other]] -- c\n] = 1\nlocal t = { [ -- c\n [==[k]==] ] = 1 }\n",
 ]
 CONFIGS = [(le, it, iw) for le in ("Unix", "Windows") for it, iw in (("Tabs", 4), ("Spaces", 2), ("Spaces", 3))]
 
